@@ -278,14 +278,17 @@ class World:
         how = op.get("as", "list")
         if how == "view" and f in ("update", "ior", "iand", "isub", "ixor"):
             # the operand is a live owning collection (another parent's, or this
-            # very one).  With move semantics this has no built-in counterpart
-            # (iterating a set that the moves shrink may even raise RuntimeError);
-            # only the structural invariants are demanded afterwards.
+            # very one).  The built-in meaning is clear - two parents' sets are
+            # disjoint, a set operated with itself is itself - and "inserted
+            # while owned elsewhere" means moved: a |= b / a ^= b / a.update(b)
+            # take all of b, a &= b empties a, a -= b changes nothing; with
+            # itself |=, &=, update change nothing and -=, ^= empty it.
             qi = op.get("q", 0) % self.n(pkind)
             other = getattr(self.obj(pkind, qi), COLL_ATTR[kind])
             donors = self.children(pkind, qi, kind)
             if qi != pi and f in ("update", "ior", "ixor") and self.movable(kind, donors, pkind, pi) != donors:
                 raise Skip()
+            before = coll
             try:
                 if f == "update":
                     coll.update(other)
@@ -297,9 +300,23 @@ class World:
                     coll -= other
                 else:
                     coll ^= other
-            except RuntimeError:
-                pass
-            self.resync()
+            except RuntimeError as e:
+                self.failf("refine:set.%s-with-owning-set-raises" % f, "%s %s: %r" % (kind, "self" if qi == pi else "other parent's set", e))
+                self.resync()
+                return
+            if coll is not before:
+                self.failf("refine:set.inplace-op-rebinds", f)
+            self.tags.append("view-operand:set." + f + (":self" if qi == pi else ":other"))
+            if qi == pi:
+                if f in ("isub", "ixor"):
+                    for c in members:
+                        self.model_detach(kind, c)
+            elif f in ("update", "ior", "ixor"):
+                for c in donors:
+                    self.model_attach(kind, c, pi)
+            elif f == "iand":
+                for c in members:
+                    self.model_detach(kind, c)
             return
         if op.get("xk") and f in ("discard", "remove", "isub"):
             # operand of another node kind (for module sets: a node the same
@@ -466,6 +483,26 @@ class World:
             if f == "append":
                 lst.append(mo)
                 want = [x for x in model if x != m] + [m]
+            elif op.get("huge"):
+                # an index the built-in refuses (OverflowError beyond ssize_t,
+                # TypeError for a non-integer): refused alike, nothing changes
+                pos = [2 ** 64 - 1, -(2 ** 64), "0", None, 1.0][op["huge"] % 5]
+                try:
+                    [].insert(pos, None)
+                    want_exc = None
+                except Exception as ex:  # noqa
+                    want_exc = type(ex)
+                self.tags.append("failed-op:list.insert-bad-index")
+                try:
+                    lst.insert(pos, mo)
+                    got_exc = None
+                except Exception as ex:  # noqa
+                    got_exc = type(ex)
+                if got_exc is not want_exc:
+                    self.failf("refine:list.insert-bad-index-exception", "insert(%r, ..): %r, built-in %r" % (pos, got_exc, want_exc))
+                    self.resync()
+                # model unchanged: the invariants are checked against it
+                return
             else:
                 pos = a if -50 < a < 50 else 0
                 lst.insert(pos, mo)
@@ -476,8 +513,10 @@ class World:
                 want = [m if x == -1 else x for x in tmp]
             settle(want, ambiguous=same and f == "insert")
         elif f in ("extend", "iadd") and op.get("as") == "view":
-            # the argument is another IR's (or this IR's) live module list:
-            # no built-in counterpart under move semantics, invariants only
+            # the argument is another IR's (or this IR's) live module list: the
+            # built-in appends every element of it in order; "moved rather than
+            # duplicated" leaves the donor list empty (and a list extended with
+            # itself in its old order)
             qi = op.get("a", 0) % self.n("ir")
             donors = list(self.order[qi])
             if qi != ii and self.movable("mod", donors, "ir", ii) != donors:
@@ -487,7 +526,14 @@ class World:
                 lst.extend(other)
             else:
                 lst += other
-            self.resync()
+            self.tags.append("view-operand:list." + f + (":self" if qi == ii else ":other"))
+            real = [self.index_of("mod", m) for m in lst]
+            want = list(model) if qi == ii else list(model) + donors
+            if real != want:
+                self.failf("refine:list.%s-with-owning-list" % f, "%s list: got %r, want %r" % ("own" if qi == ii else "another IR's", real, want))
+                self.resync()
+            else:
+                settle(want)
         elif f in ("extend", "iadd") and op.get("as") == "boom":
             seq = [self.obj("mod", m) for m in ms]
             k = op.get("bk", 0) % (len(ms) + 1)
@@ -561,7 +607,9 @@ class World:
                 if m in want:
                     want.remove(m)
                 want = [m if x == -1 else x for x in want]
-                settle(want, ambiguous=(m in model and model[a] != m))
+                # the assigned slot holds the module afterwards; its old
+                # occurrence in this list is the one that goes away
+                settle(want)
             else:
                 if not isinstance(e, IndexError):
                     self.failf("refine:list.setitem-out-of-range-no-IndexError", "%r -> %r" % (a, e))
@@ -623,7 +671,7 @@ class World:
                 # counterpart under move semantics: it must end up in the list
                 # exactly once (uniqueness, membership and both ends are checked)
                 want = list(dict.fromkeys(want))
-                settle(want, ambiguous=dup or any(m in model for m in ms))
+                settle(want, ambiguous=dup)
         elif f == "pop":
             has_arg = op.get("arg", False)
             try:
@@ -850,6 +898,7 @@ class World:
         else:
             pi = None
         kids = {}
+        repeated = False
         have = set() if pi is None else self.tree_uuids(PARENT_KIND[kind], pi)
         proot = None if pi is None else self.root_of(PARENT_KIND[kind], pi)
         for ck in CHILD_KINDS.get(kind, []):
@@ -866,10 +915,28 @@ class World:
                     ok.append(c)
                     have = have | set(us)
             sel = ok
+            shape = op.get("shape", 0) % 6
+            if sel and shape == 5:
+                # the live collection of the first child's current parent: all of
+                # its children move to the new node
+                q = self.par[(ck, sel[0])]
+                every = [] if q is None else (list(self.order[q]) if kind == "ir" else self.children(kind, q, ck))
+                us = [self.uuid[n] for c in every for n in self.subtree(ck, c)]
+                if every and len(set(us)) == len(us) and (proot is None or self.root_of(kind, q) == proot or not (set(us) & self.tree_uuids(PARENT_KIND[kind], pi))):
+                    kids[ck] = list(every)
+                    kw[COLL_ATTR[ck]] = getattr(self.obj(kind, q), COLL_ATTR[ck])
+                    self.tags.append("ctor-children:live-view")
+                    continue
+                shape = 0
             if sel:
                 kids[ck] = sel
                 objs_ = [self.obj(ck, c) for c in sel]
-                shape = op.get("shape", 0) % 4
+                if shape == 4:
+                    # the same child named twice: adopted once
+                    objs_ = objs_ + objs_[:1]
+                    repeated = True
+                    self.tags.append("ctor-children:repeated")
+                    shape = 0
                 # constructors take any iterable of children
                 kw[COLL_ATTR[ck]] = [objs_, iter(objs_), tuple(objs_), _oset(objs_)][shape] if kind != "ir" or shape != 3 else objs_
         idx = self.new_node(kind, **kw)
@@ -877,6 +944,9 @@ class World:
         for ck, sel in kids.items():
             for c in sel:
                 self.model_attach(ck, c, idx)
+        if kind == "ir" and repeated and len(self.order[idx]) > 1:
+            # appended again: the repeated module is the last one
+            self.order[idx] = self.order[idx][1:] + self.order[idx][:1]
         if pi is not None:
             self.model_attach(kind, idx, pi)
         return idx
